@@ -3,7 +3,10 @@ from lib import *
 
 PROP = "C14"
 LEVEL = "proof"
-RULE = ("random multifurcating trees (2..14 tips, 40 in thorough; rooted/unrooted; parent slot at random positions as after "
+RULE = ("60% of the cases use the tree before the call (ReinitIndexes and/or a first ToDistanceMatrix, then 1..3 public edits that "
+        "invalidate the index: two tip names exchanged, a tip renamed so that the name order changes, Reroot, RotateInternalNodes; "
+        "nothing re-indexed; the model and the oracle run on the tree as dumped just before the call); "
+        "random multifurcating trees (2..14 tips, 40 in thorough; rooted/unrooted; parent slot at random positions as after "
         "re-rootings; lengths all/mixed/none with zeros; supports mixed/all/none) x the three metrics for ToDistanceMatrix; "
         "collections of 1..5 trees on the same taxa (different shapes) x metric for AvgDistanceMatrix, plus collections where one "
         "tip name differs (refusal); CutEdgesMaxLength with thresholds 0, 1/64, equal to a branch length of the tree, just above "
@@ -48,6 +51,22 @@ def meta(op, t, **kw):
     m.update(kw)
     return m
 
+PRE_INDEX = [["reinit"], ["matrix"], ["matrixnone"], ["reinit", "matrix"], ["matrix", "reinit"], []]
+PRE_EDIT = ["swap", "renamehi", "renamelo", "reroot", "rotate"]
+
+def pre_steps(rng):
+    """the tree is used before the call: an index exists (ReinitIndexes and/or an earlier matrix call), then public edits that
+    invalidate it (names exchanged or changed so that the name order changes, re-rooting, rotations); nothing is re-indexed"""
+    if rng.random() < 0.4:
+        return {}
+    steps = list(rng.choice(PRE_INDEX)) + rng.sample(PRE_EDIT, rng.choice([1, 1, 2, 3]))
+    if rng.random() < 0.3:
+        steps += list(rng.choice(PRE_INDEX[:3])) + rng.sample(PRE_EDIT, 1)
+    return {"pre": [Sym(x) for x in steps], "seed": rng.randrange(1, 2**31)}
+
+def pre_label(p):
+    return "+".join(x.s for x in p.get("pre", [])) or "fresh"
+
 def gen(rng, tier):
     g = Gen(rng)
     out = []
@@ -57,7 +76,10 @@ def gen(rng, tier):
         if rng.random() < 0.04:
             t = degree_one_root(g, rng, t)
         for m in METRICS:
-            out.append({"sx": sx({"op": Sym("matrix"), "metric": Sym(m), "tree": T(t)}), "meta": meta("matrix", t, metric=m)})
+            p = pre_steps(rng)
+            d = {"op": Sym("matrix"), "metric": Sym(m), "tree": T(t)}
+            d.update(p)
+            out.append({"sx": sx(d), "meta": meta("matrix", t, metric=m, used=bool(p), pre=pre_label(p))})
         # cut
         ls = lengths_of(t)
         ths = [Fraction(0), Fraction(1, 64), Fraction(1000)]
@@ -75,7 +97,10 @@ def gen(rng, tier):
                 continue
             seen.add(th)
             kind = "zero" if th == 0 else ("eq-branch" if th in ls else ("above-all" if (not ls or th > max(ls)) else "other"))
-            out.append({"sx": sx({"op": Sym("cut"), "maxlen": th, "tree": T(t)}), "meta": meta("cut", t, threshold=kind)})
+            p = pre_steps(rng) if rng.random() < 0.5 else {}
+            d = {"op": Sym("cut"), "maxlen": th, "tree": T(t)}
+            d.update(p)
+            out.append({"sx": sx(d), "meta": meta("cut", t, threshold=kind, used=bool(p))})
     navg = {"quick": 120, "thorough": 2000, "search": 200}[tier]
     for k in range(navg):
         nt = rng.randint(2, 10 if tier != "thorough" else 25)
@@ -88,6 +113,12 @@ def gen(rng, tier):
             victim = rng.choice([x for x in preorder(ts[j]) if not kids(x)])
             victim["name"] = "zz"
         m = rng.choice(METRICS)
-        out.append({"sx": sx({"op": Sym("avg"), "metric": Sym(m), "trees": [T(t) for t in ts]}),
-                    "meta": {"op": "avg", "metric": m, "ntrees": cnt, "ntips": nt, "mismatch": mism}})
+        p = pre_steps(rng)
+        if any(x.s in ("renamehi", "renamelo") for x in p.get("pre", [])) and not mism:
+            # renaming the first / last tip of Tips() would give the trees different taxa: keep the same-taxa collections same-taxa
+            p = {"pre": [x for x in p["pre"] if x.s not in ("renamehi", "renamelo")], "seed": p["seed"]}
+        d = {"op": Sym("avg"), "metric": Sym(m), "trees": [T(t) for t in ts]}
+        d.update(p)
+        out.append({"sx": sx(d),
+                    "meta": {"op": "avg", "metric": m, "ntrees": cnt, "ntips": nt, "mismatch": mism, "used": bool(p.get("pre"))}})
     return out
